@@ -1099,10 +1099,22 @@ func (w *WalletManager) CreateBindingTransaction(
 	return mtxHex, fee, nil
 }
 
-// MarkUsed marks utxo used in cache
+// MarkUsed marks utxo used in cache, remembering every draft that spends each of them
 func (w *WalletManager) MarkUsedUTXO(msgTx *wire.MsgTx) {
+	holder := msgTx.TxHash()
 	for _, txIn := range msgTx.TxIn {
-		w.usedCache.Set(txIn.PreviousOutPoint.String(), nil, cache.DefaultExpiration)
+		key := txIn.PreviousOutPoint.String()
+		holders := []wire.Hash{holder}
+		if v, ok := w.usedCache.Get(key); ok {
+			if others, isList := v.([]wire.Hash); isList {
+				for _, h := range others {
+					if h != holder {
+						holders = append(holders, h)
+					}
+				}
+			}
+		}
+		w.usedCache.Set(key, holders, cache.DefaultExpiration)
 	}
 }
 
@@ -1111,10 +1123,41 @@ func (w *WalletManager) UTXOUsed(op *wire.OutPoint) bool {
 	return exist
 }
 
-// ClearUsedUTXOMark ...
+// ClearUsedUTXOMark releases the utxos reserved for msgTx. A utxo that is also spent by
+// another outstanding draft stays reserved for that draft.
 func (w *WalletManager) ClearUsedUTXOMark(msgTx *wire.MsgTx) {
+	holder := msgTx.TxHash()
 	for _, txIn := range msgTx.TxIn {
-		w.usedCache.Delete(txIn.PreviousOutPoint.String())
+		key := txIn.PreviousOutPoint.String()
+		v, expireAt, ok := w.usedCache.GetWithExpiration(key)
+		if !ok {
+			continue
+		}
+		holders, isList := v.([]wire.Hash)
+		if !isList {
+			w.usedCache.Delete(key)
+			continue
+		}
+		rest := make([]wire.Hash, 0, len(holders))
+		for _, h := range holders {
+			if h != holder {
+				rest = append(rest, h)
+			}
+		}
+		switch {
+		case len(rest) == len(holders): // reserved by other drafts only
+		case len(rest) == 0:
+			w.usedCache.Delete(key)
+		default:
+			ttl := cache.DefaultExpiration
+			if !expireAt.IsZero() {
+				if ttl = time.Until(expireAt); ttl <= 0 {
+					w.usedCache.Delete(key)
+					continue
+				}
+			}
+			w.usedCache.Set(key, rest, ttl)
+		}
 	}
 }
 
